@@ -5,9 +5,8 @@ from vf.gen import pick_weighted
 from props import _b17 as U
 
 ID = "C44"
-THEOREMS_FINAL = ["C44_eq_spec", "C44_nodup", "C44_complete", "C44_total", "C44_renames_conserve", "C44_renames_shape",
-            "C44_content_projection_oracle_free"]
-THEOREMS = []
+THEOREMS = ["C44_eq_spec", "C44_complete", "C44_change_meaning", "C44_renames_conserve",
+            "C44_content_projection_oracle_free", "C44_decode_mode_canonical"]
 MODEL_FILES = ["DiffTree.v"]
 MODELLED = ("utils/merkletrie: DiffTree/diffNodes/diffNodesSameName/diffDirs, doubleIter + Iter + frame (as the recursive "
             "merge of name-sorted children), Changes.AddRecursiveInsert/Delete; plumbing/object: treeNoder.Hash/IsDir, "
@@ -55,9 +54,9 @@ class Main(Suite):
     name = "main"
     go_cmd = "c44"
     coq_imports = "From GoGit Require Import Model.DiffTree."
-    quick_n = 260
+    quick_n = 200
     thorough_n = 4000
-    coq_chunk = 100
+    coq_chunk = 60
 
     def gen(self, rng, n, tier):
         cases = []
@@ -177,7 +176,7 @@ class Main(Suite):
 
 class Renames(Main):
     name = "renames"
-    quick_n = 220
+    quick_n = 160
     thorough_n = 4000
 
     def gen(self, rng, n, tier):
